@@ -35,17 +35,27 @@ Theorem C18_group_count_exact : forall c evs g,
 Proof. exact group_count_exact. Qed.
 
 (* counters return to zero when the corresponding peers have left *)
-Theorem C18_host_counter_returns_to_zero : forall c evs h,
+Theorem C18_host_counter_returns_to_zero_partial : forall c evs h,
   wf evs ->
   (forall p, In p (added evs) -> host p = h -> pkind p <> Persistent -> left_after evs p) ->
   cget (ccount (run c init evs)) h = 0.
 Proof. exact host_counter_returns_to_zero. Qed.
 
-Theorem C18_group_counter_returns_to_zero : forall c evs g,
+Theorem C18_group_counter_returns_to_zero_partial : forall c evs g,
   wf evs ->
   (forall p, In p (added evs) -> group p = g -> pkind p <> Inbound -> left_after evs p) ->
   cget (groups (run c init evs)) g = 0.
 Proof. exact group_counter_returns_to_zero. Qed.
+
+(* FULL STATEMENT WANTED (refuted): the same with `In (Done p) evs` in place of `left_after evs p`,
+   i.e. for either processing order of a peer's Add and Done.  peerHandler's select can process the
+   Done of a peer that disconnected right after its version message BEFORE its Add; the Add then
+   admits the already disconnected peer for good. *)
+Theorem C18_done_before_add_leaks_refuted :
+  ~ (forall c evs h, wf evs ->
+       (forall p, In p (added evs) -> host p = h -> pkind p <> Persistent -> In (Done p) evs) ->
+       cget (ccount (run c init evs)) h = 0).
+Proof. exact done_before_add_leaks_refuted. Qed.
 
 (* no peer from a banned host is admitted before the ban duration has elapsed: whatever came before
    the ban and whatever happens between the ban and the attempt (clock not running backwards) *)
@@ -100,6 +110,16 @@ Theorem C18_still_trying_partial : forall T mf evs,
   ConnMgr.zlen (conns s) < T -> bans s = 0 -> canceled s = 0 -> tasks s <> [] \/ 0 < timers s.
 Proof. exact still_trying. Qed.
 
+(* a request in flight is never stuck: the event of its stage moves it on, up to a connection *)
+Theorem C18_request_progress : forall s id,
+  (task_stage (tasks s) id = Some Created ->
+     task_stage (tasks (cstep s (Registered id))) id = Some WaitAddr /\ ConnMgr.zmem id (pend (cstep s (Registered id))) = true) /\
+  (forall a, task_stage (tasks s) id = Some WaitAddr -> ConnMgr.zmem id (pend s) = true ->
+     task_stage (tasks (cstep s (AddrOk id a))) id = Some (Dialing a)) /\
+  (forall a, task_stage (tasks s) id = Some (Dialing a) -> ConnMgr.zmem id (pend s) = true ->
+     conns (cstep s (DialOk id)) = conns s ++ [(id, a)]).
+Proof. exact request_progress. Qed.
+
 (* replaces an outbound connection that closes (below the failure threshold of its address) *)
 Theorem C18_replaces_closed_partial : forall T mf evs id a,
   0 <= T ->
@@ -138,14 +158,16 @@ Print Assumptions C18_count_le_max.
 Print Assumptions C18_per_host_le_max.
 Print Assumptions C18_conn_count_exact.
 Print Assumptions C18_group_count_exact.
-Print Assumptions C18_host_counter_returns_to_zero.
-Print Assumptions C18_group_counter_returns_to_zero.
+Print Assumptions C18_host_counter_returns_to_zero_partial.
+Print Assumptions C18_group_counter_returns_to_zero_partial.
+Print Assumptions C18_done_before_add_leaks_refuted.
 Print Assumptions C18_banned_not_admitted_before_expiry.
 Print Assumptions C18_admitted_after_expiry.
 Print Assumptions C18_conns_le_target.
 Print Assumptions C18_slot_conservation.
 Print Assumptions C18_quiescent_full_partial.
 Print Assumptions C18_still_trying_partial.
+Print Assumptions C18_request_progress.
 Print Assumptions C18_replaces_closed_partial.
 Print Assumptions C18_closed_not_replaced_at_threshold.
 Print Assumptions C18_ban_loses_slot_refuted.
